@@ -61,14 +61,15 @@ theorem hot_eqPER : EqPER hotCalc where
 theorem flow_eqPER : EqPER flowCalc where
   symm a b h := by
     simp only [flowCalc, FlowRule.eq, Bool.and_eq_true, beq_iff_eq] at h ⊢
-    obtain ⟨⟨⟨⟨⟨⟨⟨⟨⟨h1, h2⟩, h3⟩, h4⟩, h5⟩, h6⟩, h7⟩, h8⟩, h9⟩, h10⟩ := h
-    exact ⟨⟨⟨⟨⟨⟨⟨⟨⟨h1.symm, h2.symm⟩, h3.symm⟩, h4.symm⟩, h5.symm⟩, h6.symm⟩, h7.symm⟩, h8.symm⟩, h9.symm⟩, h10.symm⟩
+    obtain ⟨⟨⟨⟨⟨⟨⟨⟨⟨⟨⟨⟨⟨h1, h2⟩, h3⟩, h4⟩, h5⟩, h6⟩, h7⟩, h8⟩, h9⟩, h10⟩, h11⟩, h12⟩, h13⟩, h14⟩ := h
+    exact ⟨⟨⟨⟨⟨⟨⟨⟨⟨⟨⟨⟨⟨h1.symm, h2.symm⟩, h3.symm⟩, h4.symm⟩, h5.symm⟩, h6.symm⟩, h7.symm⟩, h8.symm⟩, h9.symm⟩, h10.symm⟩,
+      h11.symm⟩, h12.symm⟩, h13.symm⟩, h14.symm⟩
   trans a b c h g := by
     simp only [flowCalc, FlowRule.eq, Bool.and_eq_true, beq_iff_eq] at h g ⊢
-    obtain ⟨⟨⟨⟨⟨⟨⟨⟨⟨h1, h2⟩, h3⟩, h4⟩, h5⟩, h6⟩, h7⟩, h8⟩, h9⟩, h10⟩ := h
-    obtain ⟨⟨⟨⟨⟨⟨⟨⟨⟨g1, g2⟩, g3⟩, g4⟩, g5⟩, g6⟩, g7⟩, g8⟩, g9⟩, g10⟩ := g
-    exact ⟨⟨⟨⟨⟨⟨⟨⟨⟨h1.trans g1, h2.trans g2⟩, h3.trans g3⟩, h4.trans g4⟩, h5.trans g5⟩, h6.trans g6⟩, h7.trans g7⟩,
-      h8.trans g8⟩, h9.trans g9⟩, h10.trans g10⟩
+    obtain ⟨⟨⟨⟨⟨⟨⟨⟨⟨⟨⟨⟨⟨h1, h2⟩, h3⟩, h4⟩, h5⟩, h6⟩, h7⟩, h8⟩, h9⟩, h10⟩, h11⟩, h12⟩, h13⟩, h14⟩ := h
+    obtain ⟨⟨⟨⟨⟨⟨⟨⟨⟨⟨⟨⟨⟨g1, g2⟩, g3⟩, g4⟩, g5⟩, g6⟩, g7⟩, g8⟩, g9⟩, g10⟩, g11⟩, g12⟩, g13⟩, g14⟩ := g
+    exact ⟨⟨⟨⟨⟨⟨⟨⟨⟨⟨⟨⟨⟨h1.trans g1, h2.trans g2⟩, h3.trans g3⟩, h4.trans g4⟩, h5.trans g5⟩, h6.trans g6⟩, h7.trans g7⟩,
+      h8.trans g8⟩, h9.trans g9⟩, h10.trans g10⟩, h11.trans g11⟩, h12.trans g12⟩, h13.trans g13⟩, h14.trans g14⟩
 
 /-! ## unchanged_keeps_controller -/
 
@@ -354,8 +355,8 @@ theorem unchanged_keeps_controller_fails_witness : ¬ unchanged_keeps_controller
 
 /-- the same shape in the flow manager: `W` (warm-up) and `D` (direct/reject) on one resource are stat-reusable -/
 theorem steal_witness_flow :
-    (build flowCalc 6 [⟨2,7,0,0,50,0,0,0,0,0,0⟩, ⟨1,7,1,0,10,0,0,0,10,3,0⟩]
-        [⟨0, ⟨1,7,1,0,10,0,0,0,10,3,0⟩, { tokens := 77, lastFilled := 5000 }⟩] 1).map (fun c => (c.id, c.st.tokens))
+    (build flowCalc 6 [⟨2,7,0,0,50,0,0,0,0,0,0,0,0,0,0⟩, ⟨1,7,1,0,10,0,0,0,10,3,0,0,0,0,0⟩]
+        [⟨0, ⟨1,7,1,0,10,0,0,0,10,3,0,0,0,0,0⟩, { tokens := 77, lastFilled := 5000 }⟩] 1).map (fun c => (c.id, c.st.tokens))
       = [(1, 0), (2, 0)] := by decide
 
 /-- and in the hotspot manager, where *all* mutable state (per-value token and time counters) is the statistic: `A′`
@@ -374,8 +375,8 @@ theorem steal_witness_hot :
     identical rule of the next load is not `isEqualsTo` it — the controller is rebuilt (tokens 0) on the old statistic;
     with the factor given explicitly the controller is kept. -/
 theorem warmup_reload_witness :
-    let w0 : FlowRule := ⟨1, 7, 1, 0, 10, 0, 0, 0, 10, 0, 0⟩
-    let w3 : FlowRule := ⟨1, 7, 1, 0, 10, 0, 0, 0, 10, 3, 0⟩
+    let w0 : FlowRule := ⟨1, 7, 1, 0, 10, 0, 0, 0, 10, 0, 0, 0, 0, 0, 0⟩
+    let w3 : FlowRule := ⟨1, 7, 1, 0, 10, 0, 0, 0, 10, 3, 0, 0, 0, 0, 0⟩
     let warmed (cs : List (Ctl FlowRule FlowSt)) := cs.map fun c => { c with st := { c.st with tokens := 77, lastFilled := 5000 } }
     ((build flowCalc 9 [w0] (warmed (build flowCalc 1 [w0] [] 0)) 1).map fun c => (c.id, c.st.tokens)) = [(1, 0)]
     ∧ ((build flowCalc 9 [w3] (warmed (build flowCalc 1 [w3] [] 0)) 1).map fun c => (c.id, c.st.tokens)) = [(0, 77)] := by
